@@ -220,7 +220,7 @@ class Spec(PropSpec):
     props_file = "C09.v"
     theorems = ["c09_reachable_wf", "c09_routes_sound", "c09_at_most_once", "c09_routes_complete", "c09_exact",
                 "c09_drop_isolated", "c09_membership_at_send_time", "c09_clip", "c09_readable_keeps_order",
-                "c09_sound", "c09_received_at_most_once", "c09_sent_log", "c09_membership", "c09_consts", "c09_nonvacuous", "c09_empty_datagram"]
+                "c09_sound", "c09_received_at_most_once", "c09_sent_log", "c09_membership", "c09_mloop_only_multicast", "c09_consts", "c09_nonvacuous", "c09_empty_datagram", "c09_broadcast_ignores_mloop"]
     consts = CONSTS
     anchors = ANCHORS
     harness_bins = ["udp"]
@@ -229,7 +229,7 @@ class Spec(PropSpec):
     rule = ("scripts = bind (wildcard / localhost, fixed / ephemeral port) / connect / set_broadcast / set_multicast_loop / join / "
             "leave / send (remote, same host, 127.0.0.x, broadcast, multicast, unowned address; send_to and try_send_to) / "
             "recv (try_recv_from, recv_from polled once, readable) with buffers of 0..64 bytes / drop on 2-4 hosts, IPv4 and IPv6, "
-            "payload lengths from 0; a deterministic boundary family sends payloads of 0, 1, b-1, b, b+1 bytes for buffers b in {0,1,2,5} to every destination class and reads them on each receive path; "
+            "a deterministic option x destination-class matrix (SO_BROADCAST and multicast-loop on/off on sender, local and remote receiver, for broadcast / multicast / remote / same-host / loopback sends); payload lengths from 0; a deterministic boundary family sends payloads of 0, 1, b-1, b, b+1 bytes for buffers b in {0,1,2,5} to every destination class and reads them on each receive path; "
             "udp_capacity 1..64 with slow receivers, latencies 0..6 ms that reorder, random host order; payloads carry a unique id; "
             "a case is non-trivial when some send has two or more targets or a targeted datagram was dropped; "
             "distinct = distinct (hosts, capacity, script)")
